@@ -8,7 +8,7 @@ for l in open(os.path.join(HERE, "properties.jsonl")):
     p = json.loads(l)
     if p["id"] == pid:
         break
-t = open(os.path.join(HERE, "tools", "SEEDER_PROMPT.txt")).read()
+t = open(os.path.join(HERE, "tools", os.environ.get("SEED_TEMPLATE", "SEEDER_PROMPT.txt"))).read()
 t = t.replace("WORKTREE", wt).replace("TITLE", p["title"]).replace("STATEMENT", p["statement"]).replace("QUANT", p["quantifier"]["text"])
 t = t.replace("FILES", ", ".join(p["anchors"]["files"])).replace("COUNT", count).replace("ID", pid)
 print(t)
